@@ -309,6 +309,18 @@ func inlineSafeLabel(l string) bool {
 	if nb%2 == 1 {
 		return false
 	}
+	// every bracket inside a label must be escaped (preceded by an odd number of backslashes): otherwise it is not a label
+	for i := 0; i < len(l); i++ {
+		if l[i] == '[' || l[i] == ']' {
+			k := 0
+			for j := i - 1; j >= 0 && l[j] == '\\'; j-- {
+				k++
+			}
+			if k%2 == 0 {
+				return false
+			}
+		}
+	}
 	lines := strings.Split(l, "\n")
 	for i, ln := range lines {
 		t := strings.TrimLeft(ln, " \t")
